@@ -497,3 +497,304 @@ Section Refinement.
     split; [reflexivity|]. apply (process_spec_inputs e e' Hp).
   Qed.
 End Refinement.
+
+(* ================================================================================================ *)
+(* 5. corollaries (C01)                                                                              *)
+(* ================================================================================================ *)
+Section ListRel.
+  Context {A : Type}.
+  Lemma Forall2_refl_of (R : A -> A -> Prop) (l : list A) : (forall a, R a a) -> Forall2 R l l.
+  Proof. intros H; induction l; constructor; auto. Qed.
+  Lemma Forall2_trans_of (R : A -> A -> Prop) (l1 l2 l3 : list A) :
+    (forall a b c, R a b -> R b c -> R a c) -> Forall2 R l1 l2 -> Forall2 R l2 l3 -> Forall2 R l1 l3.
+  Proof.
+    intros HT H12; revert l3; induction H12; intros l3 H23; inversion H23; subst; constructor; eauto.
+  Qed.
+  Lemma Forall2_update_nth (R : A -> A -> Prop) (f : A -> A) (i : nat) (l : list A) (v : A) :
+    (forall a, R a a) -> nth_error l i = Some v -> R v (f v) -> Forall2 R l (update_nth i f l).
+  Proof.
+    intros HR. revert i; induction l as [|a l IH]; intros [|i] Hn Hv; cbn in *; try discriminate.
+    - injection Hn as ->. constructor; [exact Hv | apply Forall2_refl_of, HR].
+    - constructor; [apply HR | apply IH; assumption].
+  Qed.
+  Lemma Forall2_nth_error {B : Type} (R : A -> B -> Prop) (l : list A) (l' : list B) (i : nat) (a : A) :
+    Forall2 R l l' -> nth_error l i = Some a -> exists a', nth_error l' i = Some a' /\ R a a'.
+  Proof.
+    intros H; revert i; induction H; intros [|i] Hn; cbn in *; try discriminate.
+    - injection Hn as ->. eauto.
+    - eauto.
+  Qed.
+  Lemma Forall2_map_eq {B : Type} (f : A -> B) (l l' : list A) :
+    Forall2 (fun a a' => f a' = f a) l l' -> map f l' = map f l.
+  Proof. induction 1; cbn; congruence. Qed.
+  Lemma Forall2_impl_of (R R' : A -> A -> Prop) (l l' : list A) :
+    (forall a b, R a b -> R' a b) -> Forall2 R l l' -> Forall2 R' l l'.
+  Proof. intros H; induction 1; constructor; auto. Qed.
+End ListRel.
+
+Section Corollaries.
+  Context {T : Type} {N : Num T}.
+  Variable function_eval : engine T -> fnode T -> list (string * T) -> T -> result T.
+  Hypothesis fe_ext : forall e1 e2 : engine T,
+    e_inputs e1 = e_inputs e2 -> e_outputs e1 = e_outputs e2 -> function_eval e1 = function_eval e2.
+  Notation tm := (term_membership function_eval).
+  Notation rule_contribution := (rule_contribution function_eval).
+  Notation rules_contribution := (rules_contribution function_eval).
+  Notation blocks_contribution := (blocks_contribution function_eval).
+  Notation pipeline_values := (pipeline_values function_eval).
+  Notation pipeline_fuzzy := (pipeline_fuzzy function_eval).
+  Notation pipeline_outputs := (pipeline_outputs function_eval).
+  Notation process := (process function_eval).
+  Notation process_outputs := (process_outputs function_eval).
+  Notation firing_degree := (firing_degree function_eval).
+
+  Definition with_blocks (e : engine T) (bs : list (block T)) : engine T :=
+    {| e_name := e_name e; e_inputs := e_inputs e; e_outputs := e_outputs e; e_blocks := bs |}.
+
+  (* ---- 5.1 what the pipeline reads: not the stored degrees / flags, not the engine's rule blocks as such *)
+  Lemma firing_degree_ext (E1 E2 : engine T) (b1 b2 : block T) outs (r1 r2 : rule T) :
+    e_inputs E1 = e_inputs E2 -> b_conjunction b1 = b_conjunction b2 -> b_disjunction b1 = b_disjunction b2 ->
+    rule_deactivated r1 = rule_deactivated r2 ->
+    firing_degree E1 b1 outs r1 = firing_degree E2 b2 outs r2.
+  Proof.
+    intros HE Hc Hd Hr. unfold Pipeline.firing_degree. rewrite Hc, Hd.
+    injection Hr as He Hw Ha Hq.
+    rewrite (term_membership_cong function_eval (view E1 outs) (view E2 outs) HE (fe_ext (view E1 outs) (view E2 outs) HE eq_refl)).
+    apply rule_activate_with_cong; auto.
+  Qed.
+
+  Lemma rule_contribution_ext (E1 E2 : engine T) (b1 b2 : block T) outs (r1 r2 : rule T) :
+    e_inputs E1 = e_inputs E2 -> b_conjunction b1 = b_conjunction b2 -> b_disjunction b1 = b_disjunction b2 ->
+    b_implication b1 = b_implication b2 -> rule_deactivated r1 = rule_deactivated r2 ->
+    rule_contribution E1 b1 outs r1 = rule_contribution E2 b2 outs r2.
+  Proof.
+    intros HE Hc Hd Hi Hr. unfold Pipeline.rule_contribution.
+    rewrite (firing_degree_ext E1 E2 b1 b2 outs r1 r2 HE Hc Hd Hr), Hi.
+    injection Hr as He Hw Ha Hq. unfold rule_loaded. rewrite Ha, Hq, He. reflexivity.
+  Qed.
+
+  Lemma rules_contribution_ext (E1 E2 : engine T) (b1 b2 : block T) :
+    e_inputs E1 = e_inputs E2 -> b_conjunction b1 = b_conjunction b2 -> b_disjunction b1 = b_disjunction b2 ->
+    b_implication b1 = b_implication b2 -> forall rs1 rs2 outs,
+    map (@rule_deactivated T N) rs1 = map (@rule_deactivated T N) rs2 ->
+    rules_contribution E1 b1 outs rs1 = rules_contribution E2 b2 outs rs2.
+  Proof.
+    intros HE Hc Hd Hi. induction rs1 as [|r1 rs1 IH]; intros rs2 outs Hm.
+    - destruct rs2; [reflexivity | discriminate].
+    - destruct (map_eq_cons _ _ _ _ Hm) as (r2 & rs2' & -> & Hr & Hm').
+      cbn [Pipeline.rules_contribution]. rewrite (rule_contribution_ext E1 E2 b1 b2 outs r1 r2 HE Hc Hd Hi Hr).
+      destruct (rule_contribution E2 b2 outs r2); cbn [bind]; [apply IH, Hm' | reflexivity].
+  Qed.
+
+  Lemma blocks_contribution_ext (E1 E2 : engine T) : e_inputs E1 = e_inputs E2 -> forall bs1 bs2 outs,
+    map (@block_deactivated T N) bs1 = map (@block_deactivated T N) bs2 ->
+    blocks_contribution E1 outs bs1 = blocks_contribution E2 outs bs2.
+  Proof.
+    intros HE. induction bs1 as [|b1 bs1 IH]; intros bs2 outs Hm.
+    - destruct bs2; [reflexivity | discriminate].
+    - destruct (map_eq_cons _ _ _ _ Hm) as (b2 & bs2' & -> & Hb & Hm').
+      cbn [Pipeline.blocks_contribution]. injection Hb as Hn Hen Hc Hd Hi Ha Hrs.
+      rewrite Hen, (rules_contribution_ext E1 E2 b1 b2 HE Hc Hd Hi (b_rules b1) (b_rules b2) outs Hrs).
+      destruct (b_enabled b2); [|apply IH, Hm'].
+      destruct (rules_contribution E2 b2 outs (b_rules b2)); cbn [bind]; [apply IH, Hm' | reflexivity].
+  Qed.
+
+  Lemma pipeline_values_ext (E1 E2 : engine T) : e_inputs E1 = e_inputs E2 -> forall todo done,
+    pipeline_values E1 done todo = pipeline_values E2 done todo.
+  Proof.
+    intros HE. induction todo as [|ov todo IH]; intros done; cbn [Pipeline.pipeline_values]; [reflexivity|].
+    rewrite (output_defuzzify_cong function_eval (with_outputs E1 (done ++ ov :: todo)) (with_outputs E2 (done ++ ov :: todo)) ov
+               (term_membership_cong function_eval (with_outputs E1 (done ++ ov :: todo)) (with_outputs E2 (done ++ ov :: todo)) HE
+                  (fe_ext (with_outputs E1 (done ++ ov :: todo)) (with_outputs E2 (done ++ ov :: todo)) HE eq_refl))).
+    destruct (output_defuzzify function_eval _ ov); cbn [bind]; [apply IH | reflexivity].
+  Qed.
+
+  Lemma pipeline_outputs_ext (e1 e2 : engine T) :
+    e_inputs e1 = e_inputs e2 -> map clear_fuzzy (e_outputs e1) = map clear_fuzzy (e_outputs e2) ->
+    map (@block_deactivated T N) (e_blocks e1) = map (@block_deactivated T N) (e_blocks e2) ->
+    pipeline_outputs e1 = pipeline_outputs e2.
+  Proof.
+    intros Hi Ho Hb. unfold Pipeline.pipeline_outputs, Pipeline.pipeline_fuzzy.
+    rewrite Ho, (blocks_contribution_ext e1 e2 Hi _ _ _ Hb).
+    destruct (blocks_contribution e2 _ (e_blocks e2)); cbn [bind]; [|reflexivity].
+    apply pipeline_values_ext, Hi.
+  Qed.
+
+  Lemma general_only_ext (e1 e2 : engine T) :
+    map (@block_deactivated T N) (e_blocks e1) = map (@block_deactivated T N) (e_blocks e2) ->
+    general_only e1 -> general_only e2.
+  Proof.
+    intros Hb Hg b2 Hin Hen.
+    apply (in_map (@block_deactivated T N)) in Hin. rewrite <- Hb in Hin.
+    apply in_map_iff in Hin. destruct Hin as (b1 & Hbb & Hin1).
+    injection Hbb as Hn He Hc Hd Hi Ha Hrs.
+    unfold is_general. rewrite <- Ha. apply Hg; [exact Hin1 | congruence].
+  Qed.
+
+  (* the result does not depend on the fuzzy outputs held before the call *)
+  Theorem process_ignores_stale_fuzzy (e1 e2 : engine T) :
+    e_name e1 = e_name e2 -> e_inputs e1 = e_inputs e2 -> e_blocks e1 = e_blocks e2 ->
+    map clear_fuzzy (e_outputs e1) = map clear_fuzzy (e_outputs e2) ->
+    process e1 = process e2.
+  Proof.
+    intros Hn Hi Hb Ho. unfold Engine.process. cbv zeta.
+    replace (with_outputs e1 (map clear_fuzzy (e_outputs e1))) with (with_outputs e2 (map clear_fuzzy (e_outputs e2)));
+      [reflexivity|].
+    unfold with_outputs. rewrite Hn, Hi, Hb, Ho. reflexivity.
+  Qed.
+
+  (* nor on the degrees and triggered flags stored in the rules (nor on the fuzzy outputs) *)
+  Theorem process_ignores_stale_rule_state (e1 e2 : engine T) :
+    general_only e1 ->
+    e_inputs e1 = e_inputs e2 -> map clear_fuzzy (e_outputs e1) = map clear_fuzzy (e_outputs e2) ->
+    map (@block_deactivated T N) (e_blocks e1) = map (@block_deactivated T N) (e_blocks e2) ->
+    process_outputs e1 = process_outputs e2.
+  Proof.
+    intros Hg Hi Ho Hb.
+    rewrite (process_outputs_eq_pipeline function_eval fe_ext e1 Hg).
+    rewrite (process_outputs_eq_pipeline function_eval fe_ext e2 (general_only_ext e1 e2 Hb Hg)).
+    apply pipeline_outputs_ext; assumption.
+  Qed.
+
+  (* ---- 5.2 the contributions are folded in block order, then rule order *)
+  Lemma rules_contribution_app (E : engine T) b rs1 rs2 : forall outs,
+    rules_contribution E b outs (rs1 ++ rs2) = (do o <- rules_contribution E b outs rs1; rules_contribution E b o rs2).
+  Proof.
+    induction rs1 as [|r rs1 IH]; intros outs; cbn [app Pipeline.rules_contribution bind]; [reflexivity|].
+    destruct (rule_contribution E b outs r); cbn [bind]; [apply IH | reflexivity].
+  Qed.
+
+  Lemma blocks_contribution_app (E : engine T) bs1 bs2 : forall outs,
+    blocks_contribution E outs (bs1 ++ bs2) = (do o <- blocks_contribution E outs bs1; blocks_contribution E o bs2).
+  Proof.
+    induction bs1 as [|b bs1 IH]; intros outs; cbn [app Pipeline.blocks_contribution bind]; [reflexivity|].
+    destruct (b_enabled b); [|apply IH].
+    destruct (rules_contribution E b outs (b_rules b)); cbn [bind]; [apply IH | reflexivity].
+  Qed.
+
+  (* ---- 5.3 disabled / unloaded components *)
+  Lemma unloaded_rule_contribution (E : engine T) b outs r :
+    rule_loaded r = false -> rule_contribution E b outs r = Ok outs.
+  Proof. intros H. unfold Pipeline.rule_contribution. rewrite H. reflexivity. Qed.
+
+  Lemma disabled_rule_contribution (E : engine T) b outs r outs' :
+    r_enabled r = false -> rule_contribution E b outs r = Ok outs' -> outs' = outs.
+  Proof.
+    intros H. unfold Pipeline.rule_contribution. rewrite H.
+    destruct (rule_loaded r); [|congruence]. destruct (firing_degree E b outs r); cbn; congruence.
+  Qed.
+
+  (* replacing the rules of one block *)
+  Lemma blocks_contribution_replace_eq (E : engine T) B1 b b' B2 outs :
+    b_enabled b' = b_enabled b ->
+    (forall o, rules_contribution E b' o (b_rules b') = rules_contribution E b o (b_rules b)) ->
+    blocks_contribution E outs (B1 ++ b' :: B2) = blocks_contribution E outs (B1 ++ b :: B2).
+  Proof.
+    intros He Hr. rewrite !blocks_contribution_app.
+    destruct (blocks_contribution E outs B1) as [o|]; cbn [bind Pipeline.blocks_contribution]; [|reflexivity].
+    rewrite He, Hr. reflexivity.
+  Qed.
+
+  Lemma blocks_contribution_replace_ok (E : engine T) B1 b b' B2 outs res :
+    b_enabled b' = b_enabled b ->
+    (forall o o', rules_contribution E b o (b_rules b) = Ok o' -> rules_contribution E b' o (b_rules b') = Ok o') ->
+    blocks_contribution E outs (B1 ++ b :: B2) = Ok res -> blocks_contribution E outs (B1 ++ b' :: B2) = Ok res.
+  Proof.
+    intros He Hr. rewrite !blocks_contribution_app.
+    destruct (blocks_contribution E outs B1) as [o|]; cbn [bind Pipeline.blocks_contribution]; [|discriminate].
+    rewrite He. destruct (b_enabled b); [|auto].
+    destruct (rules_contribution E b o (b_rules b)) as [o'|] eqn:H1; cbn [bind]; [|discriminate].
+    rewrite (Hr o o' H1). auto.
+  Qed.
+
+  Lemma general_only_with_blocks (e : engine T) bs :
+    (forall b', In b' bs -> exists b, In b (e_blocks e) /\ b_enabled b = b_enabled b' /\ b_activation b = b_activation b') ->
+    general_only e -> general_only (with_blocks e bs).
+  Proof.
+    intros H Hg b' Hin Hen. destruct (H b' Hin) as (b & Hb & He & Ha).
+    unfold is_general. rewrite <- Ha. apply Hg; congruence.
+  Qed.
+
+  Lemma pipeline_outputs_with_blocks (e : engine T) bs :
+    pipeline_outputs (with_blocks e bs) =
+    (do fz <- blocks_contribution e (map clear_fuzzy (e_outputs e)) bs; pipeline_values e [] fz).
+  Proof.
+    unfold Pipeline.pipeline_outputs, Pipeline.pipeline_fuzzy. cbn [e_outputs e_blocks with_blocks].
+    rewrite (blocks_contribution_ext (with_blocks e bs) e eq_refl bs bs _ eq_refl).
+    destruct (blocks_contribution e _ bs); cbn [bind]; [|reflexivity].
+    apply pipeline_values_ext. reflexivity.
+  Qed.
+
+  Lemma in_replace_block (B1 B2 : list (block T)) (b b' x : block T) :
+    In x (B1 ++ b' :: B2) -> x = b' \/ In x (B1 ++ b :: B2).
+  Proof. rewrite !in_app_iff. cbn. intuition. Qed.
+
+  (* a rule that is not loaded is skipped: the engine without it computes the same outputs *)
+  Theorem unloaded_rule_skipped (e : engine T) B1 b B2 R1 r R2 :
+    e_blocks e = B1 ++ b :: B2 -> b_rules b = R1 ++ r :: R2 -> rule_loaded r = false ->
+    pipeline_outputs (with_blocks e (B1 ++ set_rules b (R1 ++ R2) :: B2)) = pipeline_outputs e
+    /\ (general_only e -> process_outputs (with_blocks e (B1 ++ set_rules b (R1 ++ R2) :: B2)) = process_outputs e).
+  Proof.
+    intros Hb Hr Hl.
+    assert (H : pipeline_outputs (with_blocks e (B1 ++ set_rules b (R1 ++ R2) :: B2)) = pipeline_outputs e).
+    { rewrite pipeline_outputs_with_blocks. unfold Pipeline.pipeline_outputs, Pipeline.pipeline_fuzzy. rewrite Hb.
+      rewrite (blocks_contribution_replace_eq e B1 b (set_rules b (R1 ++ R2)) B2); [reflexivity | reflexivity |].
+      intros o. cbn [b_rules set_rules]. rewrite Hr.
+      rewrite (rules_contribution_ext e e (set_rules b (R1 ++ R2)) b eq_refl eq_refl eq_refl eq_refl (R1 ++ R2) (R1 ++ R2) o eq_refl).
+      rewrite !rules_contribution_app.
+      destruct (rules_contribution e b o R1); cbn [bind Pipeline.rules_contribution]; [|reflexivity].
+      rewrite unloaded_rule_contribution by exact Hl. reflexivity. }
+    split; [exact H|]. intros Hg.
+    rewrite (process_outputs_eq_pipeline function_eval fe_ext e Hg), <- H.
+    apply (process_outputs_eq_pipeline function_eval fe_ext).
+    apply general_only_with_blocks; [|exact Hg]. intros x Hx. rewrite Hb.
+    destruct (in_replace_block B1 B2 b _ x Hx) as [-> | Hin]; [exists b | exists x]; repeat split; auto.
+    rewrite in_app_iff; right; left; reflexivity.
+  Qed.
+
+  (* a disabled rule contributes nothing: whenever the engine processes, the engine without the rule gives the same outputs
+     (the antecedent of a disabled rule is still evaluated, so the engine WITH it may raise where the other does not) *)
+  Theorem disabled_rule_contributes_nothing (e : engine T) B1 b B2 R1 r R2 outs :
+    e_blocks e = B1 ++ b :: B2 -> b_rules b = R1 ++ r :: R2 -> r_enabled r = false ->
+    (pipeline_outputs e = Ok outs -> pipeline_outputs (with_blocks e (B1 ++ set_rules b (R1 ++ R2) :: B2)) = Ok outs)
+    /\ (general_only e -> process_outputs e = Ok outs ->
+        process_outputs (with_blocks e (B1 ++ set_rules b (R1 ++ R2) :: B2)) = Ok outs).
+  Proof.
+    intros Hb Hr Hd.
+    assert (H : pipeline_outputs e = Ok outs -> pipeline_outputs (with_blocks e (B1 ++ set_rules b (R1 ++ R2) :: B2)) = Ok outs).
+    { rewrite pipeline_outputs_with_blocks. unfold Pipeline.pipeline_outputs, Pipeline.pipeline_fuzzy. rewrite Hb.
+      destruct (blocks_contribution e _ (B1 ++ b :: B2)) as [fz|] eqn:H1; cbn [bind]; [|discriminate].
+      rewrite (blocks_contribution_replace_ok e B1 b (set_rules b (R1 ++ R2)) B2 _ fz eq_refl); [auto | | exact H1].
+      intros o o'. cbn [b_rules set_rules]. rewrite Hr.
+      rewrite (rules_contribution_ext e e (set_rules b (R1 ++ R2)) b eq_refl eq_refl eq_refl eq_refl (R1 ++ R2) (R1 ++ R2) o eq_refl).
+      rewrite !rules_contribution_app.
+      destruct (rules_contribution e b o R1) as [o1|]; cbn [bind Pipeline.rules_contribution]; [|discriminate].
+      destruct (rule_contribution e b o1 r) as [o2|] eqn:H2; cbn [bind]; [|discriminate].
+      rewrite (disabled_rule_contribution e b o1 r o2 Hd H2). auto. }
+    split; [exact H|]. intros Hg Hp.
+    rewrite (process_outputs_eq_pipeline function_eval fe_ext e Hg) in Hp.
+    rewrite (process_outputs_eq_pipeline function_eval fe_ext); [exact (H Hp)|].
+    apply general_only_with_blocks; [|exact Hg]. intros x Hx. rewrite Hb.
+    destruct (in_replace_block B1 B2 b _ x Hx) as [-> | Hin]; [exists b | exists x]; repeat split; auto.
+    rewrite in_app_iff; right; left; reflexivity.
+  Qed.
+
+  (* a disabled rule block contributes nothing: the engine without the block computes the same outputs *)
+  Theorem disabled_block_contributes_nothing (e : engine T) B1 b B2 :
+    e_blocks e = B1 ++ b :: B2 -> b_enabled b = false ->
+    pipeline_outputs (with_blocks e (B1 ++ B2)) = pipeline_outputs e
+    /\ (general_only e -> process_outputs (with_blocks e (B1 ++ B2)) = process_outputs e).
+  Proof.
+    intros Hb Hd.
+    assert (H : pipeline_outputs (with_blocks e (B1 ++ B2)) = pipeline_outputs e).
+    { rewrite pipeline_outputs_with_blocks. unfold Pipeline.pipeline_outputs, Pipeline.pipeline_fuzzy. rewrite Hb.
+      rewrite !blocks_contribution_app.
+      destruct (blocks_contribution e _ B1); cbn [bind Pipeline.blocks_contribution]; [|reflexivity].
+      rewrite Hd. reflexivity. }
+    split; [exact H|]. intros Hg.
+    rewrite (process_outputs_eq_pipeline function_eval fe_ext e Hg), <- H.
+    apply (process_outputs_eq_pipeline function_eval fe_ext).
+    apply general_only_with_blocks; [|exact Hg]. intros x Hx. exists x. rewrite Hb.
+    repeat split; auto. rewrite in_app_iff in *. cbn. intuition.
+  Qed.
+End Corollaries.
